@@ -431,7 +431,11 @@ def check_C06(c):
               ("a = b = 3; [a, b]", "(l (none) (n 0 3 0))"), ("1; 2; 3", "(n 0 3 0)"), ("x = 1; x = 's'; x", "(s 73)"),
               # the `;` between statements may be omitted: every statement still runs, the value is the last one's
               ("x = 1\ny = x + 1\ny += 10;\nz = y\n[x, y, z]", "(l (n 0 1 0) (n 0 12 0) (n 0 12 0))"), ("a = 2; a *= 3 b = a; b", "(n 0 6 0)"), ("1 2 3", "(n 0 3 0)"),
-              ("a = 5; a = b = 1; [a, b]", "(l (none) (n 0 1 0))"), ("x = 3; x = nothing; x", "(none)")]
+              ("a = 5; a = b = 1; [a, b]", "(l (none) (n 0 1 0))"), ("x = 3; x = nothing; x", "(none)"),
+              # only `true`, `True`, `false`, `False` are literals: every other spelling is an ordinary name
+              ("TRUE = 5; TRUE", "(n 0 5 0)"), ("x = FALSE; x", "(none)"), ("tRuE = 1; tRuE += 2; tRuE", "(n 0 3 0)"), ("FALSE = true; [FALSE, false]", "(l (b 1) (b 0))"),
+              # assignments inside an operand are made whatever the other operand is (`&&`, `||` evaluate both sides)
+              ("x = 1; r = false && [x = 2] == [y]; [x, r]", "(l (n 0 2 0) (b 0))"), ("n = 10; ok = true || [n <<= 2] == [n -= 1]; n", "(n 0 39 0)")]
     cr = []
     for p, _ in corpus:
         cr.append("CTX\tc\t()")
@@ -602,7 +606,11 @@ def check_C07(c):
              ("A(); {1: 5 % 0}; B()", [L("A")], "ERR"), ("A(); true ? - 's' : 2; B()", [L("A")], "ERR"), ("A(); 1 + 2; B()", [L("A"), L("B")], "OK"),
              # operands of a right-nested chain of one operator run left to right like any others
              ("A() - (B() - A2())", [L("A"), L("B"), L("A2")], "OK"), ("A() - (B() - (A2() - B2()))", [L("A"), L("B"), L("A2"), L("B2")], "OK"),
-             ("x = y = A() + (B() + A2())", [L("A"), L("B"), L("A2")], "OK")]
+             ("x = y = A() + (B() + A2())", [L("A"), L("B"), L("A2")], "OK"),
+             # a name and its `(` may be separated by any white space: still one call, made after its argument
+             ("A\n(B())", [L("B"), L("A", one)], "OK"), ("x = A\t (B(), A2())", [L("B"), L("A2"), L("A", one, one)], "OK"), ("A\r\n(\nB()\n)", [L("B"), L("A", one)], "OK"),
+             # both branches are leaves: still only the selected one is evaluated (a bare name bound to a function is a call)
+             ("true ? A : B", [L("A")], "OK"), ("false ? A : B", [L("B")], "OK"), ("x = (true ? A : B); x", [L("A")], "OK")]
     treqs = []
     for text, log, oc_ in templ:
         binds = [(nm, "f", ["log", hx(nm), ["const", one]]) for nm in ("A", "A2", "B", "B2")]
@@ -912,6 +920,7 @@ def check_C09(c):
                     text = "".join(digits[: total - scale]) + ("." + "".join(digits[total - scale:]) if scale else "")
                 lits.append(text)
     lits += ["0.1", "0.2", "0.3", "1.10", "1.", "0", "00", "007", "0.0", "0.10", "10", "1.0000000000000000000000000000", MAXD, "7.9228162514264337593543950335"]
+    lits += ["0." + "0" * k_ for k_ in range(1, 29)] + ["00.00", "000.0"]   # zero keeps its places like any other literal
     bad = ["1.2.3", "1e5", "1E5", "1e+5", "1e-5", "1..", "12e", "1.e5", "79228162514264337593543950336", "792281625142643375935439503350", "1e", "2E+"]
     reqs = ["CTX\tc\t()"]
     for t in lits + bad:
